@@ -484,10 +484,12 @@ def mon_c08(m, out):
         if a.rend['kind'] == 'run_cancel':
             # cancelled by the enclosing scheduler: must have happened before expiry took effect
             continue
-        if not a.nonf:
+        if not a.nonf and a.cause is None:
             continue
         if a.cause == 'timeout':
             out.count('expiries analysed')
+            if not a.nonf:
+                out.count('  ... of schedulers holding forever jobs only')
             if a.T == 0:
                 out.count('expiries with T=0')
             if a.t_all is not None and a.t_all == a.texp:
@@ -979,6 +981,12 @@ def mon_c10(m, out):
                                   % (p, s))
         if failed and m.critical(s):
             out.count('failed runs of critical nested schedulers')
+            if rend['kind'] == 'run_return':
+                # "propagates through a critical one, whose parent aborts exactly
+                # as for a raising critical job": a failure that is merely
+                # returned is contained, not propagated
+                out.violation('propagation-form', "critical nested %s failed but returned %r instead of raising: "
+                              "its parent %s sees a job that finished" % (s, rend.get('val'), p))
             if rend['kind'] == 'run_raise':
                 exc = rend['exc']
                 out.count('exception identity checked one level up')
